@@ -174,6 +174,29 @@ def run(eng, rep, tier):
                         isinstance(c, ast.Call) and isinstance(c.func, ast.Attribute) and c.func.attr in ("append", "add")
                         and ast.unparse(c.func.value) == v for c in ast.walk(rest[0])):
                     mark_ok = True
+    # the mark must identify the configuration: an output word glued into one string (sep.join(..)) identifies it only up
+    # to where the cuts fall (["a","bc"] and ["ab","c"] give the same text) - the same defect class as F01
+    glued = None
+    for lp in [w for w in ast.walk(ft.node) if isinstance(w, ast.While)]:
+        for i, s_ in enumerate(lp.body):
+            if isinstance(s_, ast.If) and not s_.orelse and s_.body and isinstance(s_.body[-1], ast.Continue):
+                v = _membership(s_.test, True)
+                if v is None:
+                    continue
+                tested = s_.test.left if isinstance(s_.test, ast.Compare) else None
+                keyexprs = [tested] if tested is not None else []
+                if isinstance(tested, ast.Name):
+                    keyexprs += [a.value for a in ast.walk(lp) if isinstance(a, ast.Assign) and len(a.targets) == 1 and
+                                 isinstance(a.targets[0], ast.Name) and a.targets[0].id == tested.id]
+                for ke in keyexprs:
+                    for c in ast.walk(ke):
+                        if isinstance(c, ast.Call) and isinstance(c.func, ast.Attribute) and c.func.attr == "join":
+                            glued = c
+    ob.decide("R5", "C16.6", ft, "mark-identifies-configuration", glued is None,
+              "the visited mark contains the output word itself, not a lossy text encoding of it",
+              "the visited mark encodes the generated output by gluing its symbols into one string: different output words "
+              "with the same text collide and one translation is never produced", None,
+              site=site_of(prog, ft, glued if glued is not None else ft.node))
     ob.decide("R10a", "C16.6", ft, "mark-at-pop", mark_ok,
               "(remaining, output) is tested and marked per state at pop time, before expanding",
               "translate does not mark (remaining, output) per state before expanding: an output-free epsilon cycle loops "
